@@ -58,10 +58,14 @@ package integrityblock
 
 // Data to be signed: the three parts in order, each prefixed by its length as
 // a 64-bit big-endian integer.
+// dtbsOf(d, h, ib, attrs): d is what GenerateDataToBeSigned returned for the
+// bundle hash h, the block bytes ib and the attribute map attrs (definitional).
+//@ uf dtbsOf(bytes, bytes, bytes, SignatureAttributesMap) bool
 //@ func GenerateDataToBeSigned
 //@   props C07 C18
 //@   may_panic
 //@   returns (d, err)
+//@   ensures[is-the-data-to-be-signed,witness] err == nil ==> dtbsOf(bytes(d), bytes(webBundleHash), bytes(integrityBlockBytes), signatureAttributes)
 //@   ensures[hash-part] err == nil ==> dtbsStartsWith(d, webBundleHash)
 //@   ensures[block-part] err == nil ==> len(d) >= 24 + len(webBundleHash) + len(integrityBlockBytes) && be64At(d, 8 + len(webBundleHash), uint64(len(integrityBlockBytes))) && (forall i int :: 0 <= i && i < len(integrityBlockBytes) ==> d[16 + len(webBundleHash) + i] == integrityBlockBytes[i])
 //@   ensures[attributes-part] err == nil ==> be64At(d, 16 + len(webBundleHash) + len(integrityBlockBytes), uint64(len(d) - 24 - len(webBundleHash) - len(integrityBlockBytes)))
@@ -78,6 +82,7 @@ package integrityblock
 //@   ensures[error-adds-nothing] result != nil ==> ibs.IntegrityBlock.SignatureStack == old(ibs.IntegrityBlock.SignatureStack)
 //@   ensures[newest-first] result == nil ==> len(ibs.IntegrityBlock.SignatureStack) == old(len(ibs.IntegrityBlock.SignatureStack)) + 1 && ibs.IntegrityBlock.SignatureStack[0] != nil && ibs.IntegrityBlock.SignatureStack[0].SignatureAttributes == signatureAttributes && (forall i int :: 0 <= i && i < old(len(ibs.IntegrityBlock.SignatureStack)) ==> ibs.IntegrityBlock.SignatureStack[i + 1] == old(ibs.IntegrityBlock.SignatureStack[i]))
 //@   ensures[recorded-signature-verifies] result == nil ==> exists d []byte :: {bytes(d)} dtbsStartsWith(d, old(ibs.WebBundleHash)) && edVerify(bytes(ed25519publicKey), bytes(d), bytes(ibs.IntegrityBlock.SignatureStack[0].Signature))
+//@   ensures[signed-data-covers-the-recorded-attributes] result == nil ==> exists d []byte, ib []byte :: {bytes(d), bytes(ib)} dtbsOf(bytes(d), bytes(old(ibs.WebBundleHash)), bytes(ib), signatureAttributes) && edVerify(bytes(ed25519publicKey), bytes(d), bytes(ibs.IntegrityBlock.SignatureStack[0].Signature))
 //@   assigns ibs.IntegrityBlock.SignatureStack
 
 // A bundle is accepted for signing only if the length stated in its last
